@@ -227,7 +227,7 @@ TrSoapBinding ==
 
 \* a case whose file did not compile produces no observations: that is reported once for the run-time properties too
 TrDone == /\ IsEvent("done")
-          /\ IF P \in {"C03", "C04", "C05", "C07", "C16", "C18"} /\ (st.gen # "ok" \/ st.comp # "ok" \/ st.drv # "ok")
+          /\ IF P \in {"C02", "C03", "C04", "C05", "C07", "C16", "C18"} /\ (st.gen # "ok" \/ st.comp # "ok" \/ st.drv # "ok")
              THEN Report({V("observable", "pipeline", "generated, compiled, driver built", st.gen \o "/" \o st.comp \o "/" \o st.drv)})
              ELSE TRUE
           /\ TLCSet(1, TLCGet(1) + 1)
